@@ -11,8 +11,7 @@ package zknth
 
 //@ func (*Proof).Verify
 //@   nopanic[C05]
-//@   modifies nothing
-//@   allocates
+//@   modifies hstate(hash)
 //@   requires hash != nil && hash.h != nil && pkok(public.N) && public.R != nil
 
 //@ func challenge
